@@ -39,6 +39,8 @@ pub struct PeerFns {
     pub schema_name: fn() -> String,
     /// registers `Remote<'static, this type>` in a schema generator shared with other handle types
     pub schema_register: fn(&mut sylvia::schemars::gen::SchemaGenerator),
+    /// the root schema of `Remote<'static, this type>` from a generator of its own, as JSON
+    pub schema_root: fn() -> String,
 }
 
 static REG: OnceLock<BTreeMap<String, PeerFns>> = OnceLock::new();
